@@ -3,10 +3,15 @@ package genwl
 import (
 	"bytes"
 	"fmt"
+	"google.golang.org/protobuf/reflect/protoreflect"
 	"reflect"
 	"sort"
 	"strings"
+	"sync"
+	"sync/atomic"
+	"time"
 	"unsafe"
+	"verifharness/refwire"
 
 	"verifharness/bridge"
 	"verifharness/monitor"
@@ -88,7 +93,72 @@ func runC10(cfg *config, res *monitor.Result) {
 	}
 	classes := map[string]int64{}
 	var evals int64
+	// What other code did with the library before must not matter: types generated WITH enableunsafedecode live in the
+	// same process. Before every target they are given (a) an input whose nested message is malformed, so that their
+	// Unmarshal fails halfway, and (b) a valid one; a background goroutine keeps decoding valid nested input with them
+	// while the default-mode targets are judged.
+	type provocation struct {
+		t         target
+		bad, good []byte
+	}
+	var provs []provocation
 	for _, t := range cfg.targets(true) {
+		if !t.pkg.UnsafeDecode || len(provs) >= 6 {
+			continue
+		}
+		for i := 0; i < t.md.Fields().Len(); i++ {
+			fd := t.md.Fields().Get(i)
+			if fd.Kind() != protoreflect.MessageKind || fd.IsMap() {
+				continue
+			}
+			good, err := bridge.MarshalRef(cfg.gen(t, "c10-provocation").Random(t.md).Msg)
+			if err != nil {
+				break
+			}
+			// the nested payload is a key cut off in the middle
+			bad := refwire.AppendLen(refwire.AppendKey(nil, int(fd.Number()), refwire.WTLen), []byte{0xFF, 0xFF})
+			provs = append(provs, provocation{t: t, bad: bad, good: good})
+			break
+		}
+	}
+	provoke := func() {
+		for _, p := range provs {
+			m := p.t.pkg.New(p.t.md.FullName()).(fastMsg)
+			_ = monitor.Try(func() { _ = m.Unmarshal(append([]byte(nil), p.bad...)) })
+			m = p.t.pkg.New(p.t.md.FullName()).(fastMsg)
+			_ = monitor.Try(func() { _ = m.Unmarshal(append([]byte(nil), p.good...)) })
+		}
+	}
+	stop := make(chan struct{})
+	var bg sync.WaitGroup
+	var bgDecodes int64
+	if len(provs) > 0 {
+		bg.Add(1)
+		go func() {
+			defer bg.Done()
+			for {
+				select {
+				case <-stop:
+					return
+				default:
+				}
+				for _, p := range provs {
+					m := p.t.pkg.New(p.t.md.FullName()).(fastMsg)
+					_ = monitor.Try(func() { _ = m.Unmarshal(append([]byte(nil), p.good...)) })
+					atomic.AddInt64(&bgDecodes, 1)
+				}
+				time.Sleep(50 * time.Microsecond)
+			}
+		}()
+	}
+	defer func() {
+		close(stop)
+		bg.Wait()
+		res.Extra("unsafe_decode_provocations_types", int64(len(provs)))
+		res.Extra("unsafe_decode_background_decodes", atomic.LoadInt64(&bgDecodes))
+	}()
+	for _, t := range cfg.targets(true) {
+		provoke()
 		g := cfg.gen(t)
 		cases := g.Boundary(t.md)
 		for i := 0; i < nvals; i++ {
